@@ -1,18 +1,21 @@
 """C18 -- The meta application never reveals secrets and always renders.
 
 Decided:
-  R18.a  who may read resource values: every read of a ``.resources`` attribute in meta.py is key-only
-         (``in``, ``.keys()``, ``len``), a constant-key subscript on the meta application's own resources,
-         or the items() loop of get_resource_info, in which the *value* variable is used only on the branch
-         where ``'secret' in key`` is false, and the true branch stores a constant marker; no peripheral
-         context stores an Application / route / middleware / request object itself (so the JSON encoder
-         cannot reach a value by traversal);
+  R18.a  who may read resource values (taint over meta.py, followed through local aliases, module-level helper
+         functions, comprehensions and module-level constants): every read of a ``.resources`` mapping is key-only
+         (``in``, ``.keys()``, ``len``, iteration over the names), a constant-key subscript on the meta
+         application's own resources, or an iteration over its ``items()`` in which the *value* variable is
+         evaluated only where ``'secret' in key`` is known to be false (statement-level path conditions, guard
+         clauses, conditional expressions, comprehension filters), the tested key is the intact key variable, and the
+         other branch yields a constant marker that reaches the listing; parameter defaults of endpoints are
+         consulted by name only; no peripheral context stores an Application / route / middleware / request
+         object itself (so the JSON encoder cannot reach a value by traversal);
   R18.b  middleware info: get_mw_infos reads only the class name, provides, requires and repr(mw); no
          ``__repr__`` of a Middleware subclass in clastic reads an attribute whose name contains 'secret'
          or 'key' (SignedCookieMiddleware.__repr__ shows arg_name and cookie_name only);
-  R18.c  sections fail soft: in get_main the inject(peri.get_context, ...) call, and in
-         render_main_page_html both inject calls, are each under ``except Exception`` handlers that
-         substitute a placeholder and do not re-raise;
+  R18.c  sections fail soft: the inject(peri.get_context, ...) call of get_main, and both inject calls of
+         render_main_page_html, are each under ``except Exception`` handlers that substitute a placeholder and do
+         not re-raise, once per peripheral;
   R18.d  templates: every reference of the meta_*.html templates is escaped, except the allow-listed
          {content|s} of meta_base.html, whose value is an ashes render of a checked section template.
 Declined: "200 for any host application" beyond R18.c; secrets inside the repr of non-secret-named resources.
@@ -21,129 +24,779 @@ import ast
 import os
 
 from ..core import AnalysisError, norm, short
+from ..cfg import expand_conds
 from .c20 import check_template_escaping, autoescape_writes
 from .common import (cfg_of, fkey, conds, has_cond, cond_texts, stmts_of, walk_body, call_tail, call_name, returns_of,
                      raises_of, stmt_of, kwarg, protected_by, names_loaded)
 
 META = 'clastic.meta'
 OBJECT_NAMES = {'_application', 'app', 'application', 'route', 'r', 'mw', 'request', '_route', '_meta_application', 'self'}
+OWNERS = ('_meta_application', 'self')
+FRAGMENT = 'secret'
+# builtins that look at the *names* of a mapping only
+KEY_ONLY = {'len', 'sorted', 'list', 'set', 'tuple', 'frozenset', 'bool', 'iter', 'reversed'}
+# builtins that hand an iterable of pairs on unchanged (as far as the analysis is concerned)
+SEQ_THROUGH = {'sorted', 'list', 'tuple', 'reversed', 'iter'}
+COMPS = (ast.ListComp, ast.SetComp, ast.GeneratorExp, ast.DictComp)
+MW_ATTRS = {'__class__', 'provides', 'requires', 'endpoint_provides', 'render_provides', 'name'}
 
 
-def run(rep):
-    repo = rep.repo
-    meta = repo.mod(META)
-    rep.decide('R18.a resource values only on the non-secret branch / no object leaks into contexts; R18.b middleware info '
-               'and reprs; R18.c per-section fail-soft handlers; R18.d meta templates escape')
-    rep.decline('"200 for any host application" beyond the fail-soft handlers (JSON encodability of arbitrary contexts); '
-                'secrets inside the repr of resources whose name does not contain "secret"')
-    rep.rule('R18.a', 'taint: .resources values reach output only under ("secret" in key) == False')
-    rep.rule('R18.b', 'attribute reads in get_mw_infos and in middleware __repr__ methods')
-    rep.rule('R18.c', 'must-catch around each peripheral call')
-    rep.rule('R18.d', 'Dust reference escaping of the meta templates')
+# ------------------------------------------------------------------------------------------ generic helpers
+def _local_names(fi):
+    """Names bound inside the function (parameters, stores, comprehension targets, handler names)."""
+    c = getattr(fi, '_c18_locals', None)
+    if c is None:
+        c = set(fi.params())
+        a = fi.node.args
+        for x in (a.vararg, a.kwarg):
+            if x is not None:
+                c.add(x.arg)
+        for n in ast.walk(fi.node):
+            if isinstance(n, ast.Name) and isinstance(n.ctx, (ast.Store, ast.Del)):
+                c.add(n.id)
+            elif isinstance(n, ast.ExceptHandler) and n.name:
+                c.add(n.name)
+        fi._c18_locals = c
+    return c
 
-    # ---- R18.a -----------------------------------------------------------
-    reads = []
-    for fi in meta.functions.values():
-        for n in walk_body(fi.node):
-            if isinstance(n, ast.Attribute) and n.attr == 'resources' and isinstance(n.ctx, ast.Load):
-                reads.append((fi, n))
-    if len(reads) < 3:
-        raise AnalysisError('meta.py: only %d reads of .resources found (floor 3)' % len(reads))
-    for fi, n in reads:
-        par = meta.parents.get(n)
-        gp = meta.parents.get(par)
-        kind = None
-        if isinstance(par, ast.Compare) and n in par.comparators and isinstance(par.ops[0], (ast.In, ast.NotIn)):
-            kind = 'key membership'
-        elif isinstance(par, ast.Attribute) and par.attr == 'keys':
-            kind = 'keys()'
-        elif isinstance(par, ast.Call) and call_name(par) == 'len':
-            kind = 'len()'
-        elif isinstance(par, ast.Subscript) and isinstance(par.slice, ast.Constant) and norm(n.value) in ('_meta_application', 'self'):
-            kind = 'own constant key %r of the meta application' % par.slice.value
-        elif isinstance(par, ast.Attribute) and par.attr == 'items' and isinstance(gp, ast.Call):
-            loop = meta.parents.get(gp)
-            if isinstance(loop, ast.For) and isinstance(loop.target, ast.Tuple) and len(loop.target.elts) == 2:
-                kv, vv = [norm(x) for x in loop.target.elts]
-                is_secret = lambda t: norm(t) == "'secret' in %s" % kv or norm(t) == "'secret' in %s.lower()" % kv
-                uses = [x for x in ast.walk(loop) if isinstance(x, ast.Name) and x.id == vv and isinstance(x.ctx, ast.Load)]
-                bad = [x for x in uses if not has_cond(conds(fi, x), is_secret, False)]
-                marks = [s for s in ast.walk(loop) if isinstance(s, ast.Assign) and isinstance(s.value, ast.Constant) and
-                         has_cond(conds(fi, s), is_secret, True)]
-                # the name that is tested is the resource's real name: the key variable is never re-bound in the loop
-                rebinds = [x for x in ast.walk(loop) if isinstance(x, ast.Name) and x.id == kv and isinstance(x.ctx, ast.Store) and
-                           not any(x is y for y in ast.walk(loop.target))]
-                rep.check('R18.a', fkey(fi, 'key variable intact'), not rebinds,
-                          "the 'secret' test looks at the resource name itself" if not rebinds else
-                          'the key variable %s is re-bound inside the loop (truncated / transformed) before the "secret" test: the decision is '
-                          'made on something else than the resource name' % kv, meta, rebinds[0] if rebinds else loop)
-                ok = not bad and len(marks) >= 1 and bool(uses)
-                rep.check('R18.a', fkey(fi, 'items() loop'), ok,
-                          "the value variable %s is read only where ('secret' in %s) is false; the other branch stores the constant %r"
-                          % (vv, kv, marks[0].value.value if marks else None) if ok else
-                          'a resource value is used without the "secret" test being false (%d unguarded uses) or no redaction marker is stored'
-                          % len(bad), meta, (bad or [loop])[0])
-                # what is appended uses the branch variable
-                tv = norm(marks[0].targets[0]) if marks else None
-                outs = [c for c in ast.walk(loop) if isinstance(c, ast.Call) and call_tail(c) == 'append']
-                ok2 = bool(outs) and all(vv not in names_loaded(c) for c in outs) and tv is not None and all(tv in names_loaded(c) for c in outs)
-                rep.check('R18.a', fkey(fi, 'output value'), ok2, 'the listed value is the branch result (%s), never the raw value' % tv if ok2 else
-                          'the raw resource value is put into the output', meta, outs[0] if outs else loop)
+
+def _fold_str(repo, fi, expr):
+    """Folded value of a constant-valued expression (literals and module-level constants); None when it reads a
+    local or cannot be folded."""
+    if expr is None:
+        return None
+    loc = _local_names(fi)
+    for n in ast.walk(expr):
+        if isinstance(n, ast.Name) and n.id in loc:
+            return None
+    v = repo.try_fold(expr, fi.mod)
+    return v if isinstance(v, str) else None
+
+
+def resolve_callee(repo, fi, call):
+    """(FuncInfo, number of leading parameters bound implicitly) of a call whose callee is a function of the analysed
+    tree: ``helper(..)``, ``self.helper(..)`` / ``cls.helper(..)``, ``Class.helper(..)``; else (None, 0)."""
+    f = call.func
+    try:
+        if isinstance(f, ast.Name):
+            if f.id in _local_names(fi):
+                return None, 0
+            kind, m, obj = repo.resolve(fi.mod, f.id)
+            if kind == 'func' and m is not None and not m.external:
+                return obj, 0
+        elif isinstance(f, ast.Attribute) and isinstance(f.value, ast.Name):
+            recv = f.value.id
+            ci = None
+            via_instance = False
+            if recv in ('self', 'cls'):
+                ci = _class_of(fi)
+                via_instance = True
+            elif recv not in _local_names(fi):
+                kind, m, obj = repo.resolve(fi.mod, recv)
+                if kind == 'class' and m is not None and not m.external:
+                    ci = obj
+            if ci is not None:
+                meth = repo.find_method(ci, f.attr)
+                if meth is not None and not meth.mod.external:
+                    decos = [norm(d) for d in meth.node.decorator_list]
+                    if 'staticmethod' in decos:
+                        return meth, 0
+                    if 'classmethod' in decos:
+                        return meth, 1
+                    if decos:
+                        return None, 0
+                    return meth, (1 if via_instance else 0)
+    except AnalysisError:
+        pass
+    return None, 0
+
+
+def _class_of(fi):
+    """ClassInfo of the class whose body defines the method ``fi`` (None for plain functions)."""
+    if fi.cls is not None:
+        return fi.cls
+    par = fi.mod.parents.get(fi.node)
+    if isinstance(par, ast.ClassDef):
+        for c in fi.mod.classes.values():
+            if c.node is par:
+                return c
+    return None
+
+
+def bind_args(callee, skip, call):
+    """{parameter name: argument expression} for the explicitly passed arguments; None when the call cannot be
+    matched to the signature (star arguments, unknown keyword)."""
+    a = callee.node.args
+    params = [x.arg for x in a.posonlyargs + a.args][skip:]
+    kwonly = [x.arg for x in a.kwonlyargs]
+    if any(isinstance(x, ast.Starred) for x in call.args) or any(k.arg is None for k in call.keywords):
+        return None
+    if len(call.args) > len(params) and a.vararg is None:
+        return None
+    out = {}
+    for p, x in zip(params, call.args):
+        out[p] = x
+    for k in call.keywords:
+        if k.arg in out or (k.arg not in params and k.arg not in kwonly):
+            if a.kwarg is None:
+                return None
+            continue
+        out[k.arg] = k.value
+    return out
+
+
+def call_of_arg(mod, node):
+    """The Call in which ``node`` is passed as a positional or keyword argument (else None)."""
+    par = mod.parents.get(node)
+    if isinstance(par, ast.Call) and any(node is x for x in par.args):
+        return par
+    if isinstance(par, ast.keyword) and par.value is node:
+        gp = mod.parents.get(par)
+        if isinstance(gp, ast.Call):
+            return gp
+    return None
+
+
+def expr_conds(fi, node):
+    """Conditions (test, polarity) known to hold whenever the expression ``node`` is evaluated: the path conditions of
+    its statement (CFG: if / elif / guard clauses / named conditions) plus what the expression context adds --
+    the arm of a conditional expression, the later operand of ``and`` / ``or``, the filters of the comprehension
+    that produces the element.  Code in a lambda runs later: statement-level conditions do not carry over."""
+    mod = fi.mod
+    out = []
+    cur = node
+    deferred = False
+    stmt = None
+    while cur is not None and cur is not fi.node:
+        if isinstance(cur, ast.stmt):
+            stmt = cur
+            break
+        par = mod.parents.get(cur)
+        if isinstance(par, ast.IfExp):
+            if cur is par.body:
+                out.append((par.test, True))
+            elif cur is par.orelse:
+                out.append((par.test, False))
+        elif isinstance(par, ast.BoolOp):
+            pol = isinstance(par.op, ast.And)
+            for v in par.values:
+                if v is cur:
+                    break
+                out.append((v, pol))
+        elif isinstance(par, COMPS):
+            # cur is the element (key / value): every filter of every generator passed
+            for g in par.generators:
+                for c in g.ifs:
+                    out.append((c, True))
+        elif isinstance(par, ast.comprehension):
+            comp = mod.parents.get(par)
+            gens = list(getattr(comp, 'generators', []))
+            for g in gens:
+                if g is par:
+                    break
+                for c in g.ifs:
+                    out.append((c, True))
+            if any(cur is c for c in par.ifs):
+                for c in par.ifs:
+                    if c is cur:
+                        break
+                    out.append((c, True))
+            cur = comp       # (the comprehension node itself adds nothing more)
+            continue
+        elif isinstance(par, ast.Lambda):
+            deferred = True
+        elif isinstance(par, (ast.FunctionDef, ast.AsyncFunctionDef, ast.ClassDef)) and par is not fi.node:
+            deferred = True
+        cur = par
+    if stmt is not None and not deferred:
+        try:
+            out.extend(conds(fi, stmt))
+        except AnalysisError:
+            pass
+    return expand_conds(out)
+
+
+def single_return_expr(fi):
+    """The expression of a function whose body is (docstring +) one ``return <expr>``; else None."""
+    body = list(fi.node.body)
+    if body and isinstance(body[0], ast.Expr) and isinstance(body[0].value, ast.Constant) and isinstance(body[0].value.value, str):
+        body = body[1:]
+    if len(body) == 1 and isinstance(body[0], ast.Return) and body[0].value is not None:
+        return body[0].value
+    return None
+
+
+def _names_only_key(kw):
+    """Keyword of ``sorted(<pairs>, ...)`` that cannot look at the values: ``reverse=..`` or ``key=lambda p: p[0]``."""
+    if kw.arg == 'reverse':
+        return True
+    if kw.arg != 'key' or not isinstance(kw.value, ast.Lambda):
+        return False
+    lam = kw.value
+    ps = [a.arg for a in lam.args.posonlyargs + lam.args.args]
+    if len(ps) != 1 or lam.args.vararg or lam.args.kwarg or lam.args.kwonlyargs:
+        return False
+    par = {}
+    for x in ast.walk(lam.body):
+        for ch in ast.iter_child_nodes(x):
+            par[ch] = x
+    for x in ast.walk(lam.body):
+        if isinstance(x, ast.Name) and x.id == ps[0]:
+            p = par.get(x)
+            if not (isinstance(p, ast.Subscript) and p.value is x and isinstance(p.slice, ast.Constant) and p.slice.value == 0):
+                return False
+    return True
+
+
+def _loops_around(fi, node):
+    """For statements / comprehension generators of ``fi`` whose body (element) contains ``node``, innermost first."""
+    out = []
+    cur = node
+    mod = fi.mod
+    while cur is not None and cur is not fi.node:
+        par = mod.parents.get(cur)
+        if isinstance(par, ast.For) and not (cur is par.iter or cur is par.target):
+            out.append(par)
+        elif isinstance(par, COMPS) and not isinstance(cur, ast.comprehension):
+            out.extend(reversed(par.generators))
+        cur = par
+    return out
+
+
+def _iter_mentions(fi, it, word):
+    """The iterated expression mentions attribute / name ``word``, directly or through a single-assignment local."""
+    def mentions(e):
+        return any((isinstance(x, ast.Attribute) and x.attr == word) or (isinstance(x, ast.Name) and x.id == word) for x in ast.walk(e))
+    if mentions(it):
+        return True
+    for x in ast.walk(it):
+        if isinstance(x, ast.Name):
+            srcs = [s.value for s in stmts_of(fi.node) if isinstance(s, ast.Assign) and len(s.targets) == 1 and
+                    isinstance(s.targets[0], ast.Name) and s.targets[0].id == x.id]
+            if len(srcs) == 1 and mentions(srcs[0]):
+                return True
+    return False
+
+
+# ------------------------------------------------------------------------------------------ R18.a: the taint engine
+class _Site(object):
+    """One iteration over the items of a resources mapping: ``for <key>, <val> in <resources>.items()``."""
+
+    def __init__(self, fi, holder, kname, vname):
+        self.fi, self.holder, self.kname, self.vname = fi, holder, kname, vname
+        self.uses, self.bad, self.rebinds, self.markers = [], [], [], []
+        self.shown = False
+        self._seen = set()
+
+    def use(self, fi, node, ok):
+        if id(node) in self._seen:
+            return
+        self._seen.add(id(node))
+        self.uses.append((fi, node))
+        if not ok:
+            self.bad.append((fi, node))
+
+
+class _Taint(object):
+    """Value flow of the sensitive mappings of meta.py.
+
+    Tags:  ('map', kind, own)   a mapping whose *values* are sensitive (kind: 'resources' | 'defaults')
+           ('items', kind)      its items() view (or a sorted / listed copy)
+           ('val', key, site)   one value of a resources mapping; ``key`` is the local that holds its name
+    """
+    MAX_DEPTH = 4
+
+    def __init__(self, repo, mod):
+        self.repo, self.mod = repo, mod
+        self.sites = []
+        self._site_of = {}
+        self.reads = []          # (fi, node, kind text or None, detail when bad)
+        self._seen_reads = set()
+        self.n_sources = 0
+        self._source_ids = set()
+        self._stack = []
+
+    # -- expression tags -------------------------------------------------------------------------------
+    def tags(self, e, env):
+        if isinstance(e, ast.Attribute) and e.attr == 'resources' and isinstance(e.ctx, ast.Load):
+            return {('map', 'resources', norm(e.value) in OWNERS)}
+        if isinstance(e, ast.Name) and isinstance(e.ctx, ast.Load):
+            return set(env.get(e.id, ()))
+        if isinstance(e, ast.Call):
+            f = e.func
+            if isinstance(f, ast.Attribute) and f.attr == 'get_defaults_dict':
+                return {('map', 'defaults', False)}
+            if isinstance(f, ast.Attribute) and not e.args and not e.keywords:
+                base = self.tags(f.value, env)
+                if f.attr == 'items':
+                    return set(('items', t[1]) for t in base if t[0] == 'map')
+                if f.attr == 'copy':
+                    return set(t for t in base if t[0] == 'map')
+            if isinstance(f, ast.Name) and len(e.args) == 1 and f.id not in env:
+                a = self.tags(e.args[0], env)
+                if f.id == 'dict' and not e.keywords:
+                    return set(t for t in a if t[0] == 'map')
+                if f.id in SEQ_THROUGH:
+                    return set(t for t in a if t[0] == 'items')
+        return set()
+
+    def is_source(self, e):
+        return (isinstance(e, ast.Attribute) and e.attr == 'resources' and isinstance(e.ctx, ast.Load)) or \
+            (isinstance(e, ast.Call) and isinstance(e.func, ast.Attribute) and e.func.attr == 'get_defaults_dict')
+
+    # -- the 'secret' test -------------------------------------------------------------------------------
+    def _is_key_expr(self, fi, e, kname, depth=0):
+        """``e`` denotes the resource name held by local ``kname``: the name itself, its lower-cased form, or a
+        single-assignment local bound to one of these."""
+        if kname is None or depth > 3:
+            return False
+        if isinstance(e, ast.Name):
+            if e.id == kname:
+                return True
+            binds = [n for n in ast.walk(fi.node) if isinstance(n, ast.Name) and n.id == e.id and isinstance(n.ctx, (ast.Store, ast.Del))]
+            if len(binds) == 1 and e.id not in fi.params():
+                par = fi.mod.parents.get(binds[0])
+                if isinstance(par, ast.Assign) and len(par.targets) == 1 and par.targets[0] is binds[0]:
+                    return self._is_key_expr(fi, par.value, kname, depth + 1)
+            return False
+        if isinstance(e, ast.Call) and isinstance(e.func, ast.Attribute) and e.func.attr in ('lower', 'casefold') and \
+                not e.args and not e.keywords:
+            return self._is_key_expr(fi, e.func.value, kname, depth + 1)
+        return False
+
+    def secret_test(self, fi, t, kname, depth=0):
+        """+1 when ``t`` is true exactly if the name held by ``kname`` contains 'secret' (``'secret' in key``, the
+        fragment possibly a module-level constant, the key possibly lower-cased, the test possibly a one-expression
+        predicate function applied to the key); -1 for the negated form; 0 otherwise."""
+        if kname is None or depth > 3:
+            return 0
+        if isinstance(t, ast.UnaryOp) and isinstance(t.op, ast.Not):
+            return -self.secret_test(fi, t.operand, kname, depth)
+        if isinstance(t, ast.Compare) and len(t.ops) == 1 and isinstance(t.ops[0], (ast.In, ast.NotIn)):
+            if _fold_str(self.repo, fi, t.left) == FRAGMENT and self._is_key_expr(fi, t.comparators[0], kname):
+                return 1 if isinstance(t.ops[0], ast.In) else -1
+            return 0
+        if isinstance(t, ast.Call):
+            callee, skip = resolve_callee(self.repo, fi, t)
+            if callee is not None:
+                expr = single_return_expr(callee)
+                b = bind_args(callee, skip, t)
+                if expr is not None and b is not None:
+                    kps = [p for p, x in b.items() if isinstance(x, ast.Name) and x.id == kname]
+                    if len(kps) == 1:
+                        return self.secret_test(callee, expr, kps[0], depth + 1)
+        return 0
+
+    def polarity(self, fi, node, kname):
+        """+1: 'secret' is known to be in the name where ``node`` is evaluated; -1: known not to be; 0: unknown."""
+        if kname is None:
+            return 0
+        for t, p in expr_conds(fi, node):
+            s = self.secret_test(fi, t, kname)
+            if s:
+                return s if p else -s
+        return 0
+
+    # -- one function ------------------------------------------------------------------------------------
+    def scan(self, fi, ptags, chain=()):
+        """Classify every occurrence of a tagged expression in ``fi``.  ``ptags``: tags of the parameters (callee
+        context); ``chain``: ((caller FuncInfo, call node), ...) from the outermost caller."""
+        if len(chain) > self.MAX_DEPTH or fi.key in self._stack:
+            raise AnalysisError('R18.a: helper chain through %s too deep / recursive to follow' % fi.qualname)
+        self._stack.append(fi.key)
+        try:
+            self._scan(fi, ptags, chain)
+        finally:
+            self._stack.pop()
+
+    def _scan(self, fi, ptags, chain):
+        mod = fi.mod
+        env = dict((p, set(ts)) for p, ts in ptags.items())
+        nodes = list(walk_body(fi.node))
+        assigns, binders = [], []
+        for n in nodes:
+            if isinstance(n, ast.Assign) and len(n.targets) == 1 and isinstance(n.targets[0], ast.Name):
+                assigns.append((n.targets[0].id, n.value))
+            elif isinstance(n, ast.AnnAssign) and isinstance(n.target, ast.Name) and n.value is not None:
+                assigns.append((n.target.id, n.value))
+            elif isinstance(n, ast.NamedExpr) and isinstance(n.target, ast.Name):
+                assigns.append((n.target.id, n.value))
+            elif isinstance(n, (ast.For, ast.comprehension)):
+                binders.append(n)
+        sites = {}
+        for _ in range(6):
+            changed = False
+            for name, value in assigns:
+                for t in self.tags(value, env):
+                    if t not in env.setdefault(name, set()):
+                        env[name].add(t)
+                        changed = True
+            for b in binders:
+                tg = b.target
+                for t in self.tags(b.iter, env):
+                    if t[0] == 'items' and t[1] == 'resources' and isinstance(tg, (ast.Tuple, ast.List)) and len(tg.elts) == 2 and \
+                            all(isinstance(x, ast.Name) for x in tg.elts):
+                        k, v = tg.elts[0].id, tg.elts[1].id
+                        site = sites.get(id(b))
+                        if site is None:
+                            site = self._site_of.get(id(b))
+                            if site is None:
+                                site = self._site_of[id(b)] = _Site(fi, b, k, v)
+                                self.sites.append(site)
+                            sites[id(b)] = site
+                        vt = ('val', k, site)
+                        if vt not in env.setdefault(v, set()):
+                            env[v].add(vt)
+                            changed = True
+            if not changed:
+                break
+        if not env and not any(self.is_source(n) for n in nodes):
+            return
+        site_targets = set()
+        for b in binders:
+            if id(b) in sites:
+                for x in ast.walk(b.target):
+                    site_targets.add(id(x))
+        # key variables must stay what the iteration bound them to
+        keyed = {}
+        for ts in env.values():
+            for t in ts:
+                if t[0] == 'val' and t[1] is not None:
+                    keyed.setdefault((t[1], id(t[2])), t[2])
+        for (k, _), site in keyed.items():
+            for n in nodes:
+                if isinstance(n, ast.Name) and n.id == k and isinstance(n.ctx, (ast.Store, ast.Del)) and id(n) not in site_targets:
+                    site.rebinds.append((fi, n))
+        # occurrences
+        pending = {}
+        for n in nodes:
+            if not isinstance(n, ast.expr) or isinstance(getattr(n, 'ctx', None), (ast.Store, ast.Del)):
                 continue
-        rep.check('R18.a', fkey(fi, n) + '#' + str(reads.index((fi, n))), kind is not None,
-                  'read of .resources is %s' % kind if kind else
-                  '%s reads resource *values* (%s): secrets would be disclosed' % (fi.qualname, short(par)), meta, n)
-    # arbitrary host objects reachable through signatures: the defaults of endpoint parameters are used by *name* only
-    # (their values are user objects the non-dev JSON view cannot be assumed to encode, and may be sensitive)
-    n_def = 0
+            ts = self.tags(n, env)
+            if not ts:
+                continue
+            if self.is_source(n) and id(n) not in self._source_ids:
+                self._source_ids.add(id(n))
+                self.n_sources += 1
+            for t in sorted(ts, key=lambda t: (t[0], str(t[1]))):
+                if t[0] == 'val':
+                    self._use_of_value(fi, n, t, pending)
+                else:
+                    self._use_of_mapping(fi, n, t, sites, pending)
+        # the redaction marker of each site this function takes part in
+        for (k, _), site in keyed.items():
+            self._markers(fi, k, site, chain, nodes)
+        # follow tagged arguments into the helpers they are passed to
+        for call, callee, ptags2 in pending.values():
+            self.scan(callee, ptags2, chain + ((fi, call),))
+
+    def _transfer(self, fi, node, tag, pending):
+        """``node`` is passed to a helper of the analysed tree: remember the parameter's tag.  False when it is not
+        an argument of a resolvable call."""
+        call = call_of_arg(fi.mod, node)
+        if call is None:
+            return False
+        callee, skip = resolve_callee(self.repo, fi, call)
+        if callee is None:
+            return False
+        b = bind_args(callee, skip, call)
+        if b is None:
+            return False
+        ps = [p for p, x in b.items() if x is node]
+        if len(ps) != 1:
+            return False
+        if tag[0] == 'val':
+            kps = [p for p, x in b.items() if isinstance(x, ast.Name) and x.id == tag[1]] if tag[1] is not None else []
+            tag = ('val', kps[0] if len(kps) == 1 else None, tag[2])
+        elif tag[0] == 'map':
+            tag = ('map', tag[1], False)
+        ent = pending.setdefault(id(call), (call, callee, {}))
+        ent[2].setdefault(ps[0], set()).add(tag)
+        return True
+
+    def _use_of_value(self, fi, n, tag, pending):
+        _, k, site = tag
+        par = fi.mod.parents.get(n)
+        if self.polarity(fi, n, k) == -1:
+            site.use(fi, n, True)
+        elif isinstance(par, (ast.Assign, ast.AnnAssign, ast.NamedExpr)) and par.value is n and \
+                all(isinstance(x, ast.Name) for x in (par.targets if isinstance(par, ast.Assign) else [par.target])) and \
+                isinstance(n, ast.Name):
+            site.use(fi, n, True)      # alias: the new name carries the tag, its uses are judged
+        elif self._transfer(fi, n, tag, pending):
+            site.use(fi, n, True)      # handed to a helper: judged there
+        else:
+            site.use(fi, n, False)
+
+    def _read(self, fi, n, kind, detail=None):
+        if id(n) in self._seen_reads:
+            return
+        self._seen_reads.add(id(n))
+        self.reads.append((fi, n, kind, detail))
+
+    def _use_of_mapping(self, fi, n, tag, sites, pending):
+        mod = fi.mod
+        par = mod.parents.get(n)
+        gp = mod.parents.get(par)
+        what = 'resource' if tag[1] == 'resources' else 'parameter default'
+        kind = None
+        if tag[0] == 'map':
+            if isinstance(par, ast.Compare) and len(par.ops) == 1 and isinstance(par.ops[0], (ast.In, ast.NotIn)) and \
+                    any(n is c for c in par.comparators):
+                kind = 'key membership'
+            elif isinstance(par, ast.Attribute) and par.value is n and isinstance(gp, ast.Call) and gp.func is par:
+                if par.attr == 'keys':
+                    kind = 'keys()'
+                elif par.attr == 'items' and tag[1] == 'resources' and not gp.args and not gp.keywords:
+                    kind = 'items() (judged where it is iterated)'
+                elif par.attr == 'copy' and not gp.args and not gp.keywords:
+                    kind = 'copy (judged where it is used)'
+            elif isinstance(par, ast.Call) and isinstance(par.func, ast.Name) and any(n is a for a in par.args) and \
+                    par.func.id in KEY_ONLY and len(par.args) == 1:
+                kind = '%s()' % par.func.id
+            elif isinstance(par, ast.Call) and isinstance(par.func, ast.Name) and par.func.id == 'dict' and len(par.args) == 1 and \
+                    par.args[0] is n and not par.keywords:
+                kind = 'copy (judged where it is used)'
+            elif isinstance(par, (ast.For, ast.comprehension)) and par.iter is n:
+                kind = 'iteration over the names'
+            elif isinstance(par, ast.Subscript) and par.value is n and isinstance(par.slice, ast.Constant) and tag[2] and \
+                    isinstance(par.ctx, ast.Load):
+                kind = 'own constant key %r of the meta application' % (par.slice.value,)
+            elif isinstance(par, (ast.If, ast.While, ast.IfExp)) and par.test is n:
+                kind = 'emptiness test'
+            elif isinstance(par, ast.UnaryOp) and isinstance(par.op, ast.Not):
+                kind = 'emptiness test'
+        else:   # items
+            if isinstance(par, (ast.For, ast.comprehension)) and par.iter is n:
+                if id(par) in sites:
+                    kind = 'iteration over (name, value) pairs (judged per use of the value)'
+            elif isinstance(par, ast.Call) and isinstance(par.func, ast.Name) and len(par.args) == 1 and par.args[0] is n:
+                if par.func.id in SEQ_THROUGH and (not par.keywords or (par.func.id == 'sorted' and
+                                                                         all(_names_only_key(k) for k in par.keywords))):
+                    kind = '%s() (judged where it is iterated)' % par.func.id
+                elif par.func.id == 'len' and not par.keywords:
+                    kind = 'len()'
+        if kind is None and isinstance(par, (ast.Assign, ast.AnnAssign, ast.NamedExpr)) and par.value is n and \
+                all(isinstance(x, ast.Name) for x in (par.targets if isinstance(par, ast.Assign) else [par.target])):
+            kind = 'local alias (judged where it is used)'
+        if kind is None and self._transfer(fi, n, tag, pending):
+            kind = 'argument of a helper of meta.py (judged there)'
+        self._read(fi, n, kind, None if kind else
+                   '%s reads %s *values* (%s): %s' % (fi.qualname, what, short(par if isinstance(par, ast.AST) else n),
+                                                     'secrets would be disclosed' if tag[1] == 'resources' else
+                                                     'an arbitrary host object reaches the JSON view (encoder failure => 500 for the whole '
+                                                     'view, or disclosure)'))
+
+    # -- the marker --------------------------------------------------------------------------------------
+    def _markers(self, fi, k, site, chain, nodes):
+        """Constant-valued expressions that are produced exactly where 'secret' is known to be in the name."""
+        found = []
+        for n in nodes:
+            if isinstance(n, ast.Assign) and len(n.targets) == 1:
+                v = _fold_str(self.repo, fi, n.value)
+                if v and self.polarity(fi, n.value, k) == 1:
+                    found.append((n.value, v))
+            elif isinstance(n, ast.Return) and n.value is not None and chain:
+                v = _fold_str(self.repo, fi, n.value)
+                if v and self.polarity(fi, n.value, k) == 1:
+                    found.append((n.value, v))
+            elif isinstance(n, ast.IfExp):
+                s = self.secret_test(fi, n.test, k)
+                arm = n.body if s == 1 else n.orelse if s == -1 else None
+                if arm is not None:
+                    v = _fold_str(self.repo, fi, arm)
+                    if v:
+                        found.append((arm, v))
+        for e, v in found:
+            site.markers.append((fi, e, v))
+            if self.flows_to_output(fi, e, chain):
+                site.shown = True
+
+    def flows_to_output(self, fi, node, chain, depth=0):
+        """The value of ``node`` becomes (part of) an element of the listing: it is appended / yielded / the element of
+        a comprehension, possibly through a local, a container display or the return value of the helper."""
+        if depth > 5:
+            return False
+        mod = fi.mod
+        cur = node
+        while cur is not None and cur is not fi.node:
+            par = mod.parents.get(cur)
+            if isinstance(par, ast.Call) and call_tail(par) in ('append', 'extend', 'add', 'insert') and any(cur is a for a in par.args):
+                return True
+            if isinstance(par, (ast.ListComp, ast.SetComp, ast.GeneratorExp)) and par.elt is cur:
+                return True
+            if isinstance(par, ast.DictComp) and par.value is cur:
+                return True
+            if isinstance(par, (ast.Yield, ast.YieldFrom)):
+                return True
+            if isinstance(par, ast.stmt):
+                if isinstance(par, (ast.Assign, ast.AnnAssign, ast.AugAssign)) and par.value is cur:
+                    names = set()
+                    for t in (par.targets if isinstance(par, ast.Assign) else [par.target]):
+                        while isinstance(t, (ast.Subscript, ast.Attribute)):
+                            t = t.value
+                        if isinstance(t, ast.Name):
+                            names.add(t.id)
+                    for n in walk_body(fi.node):
+                        if isinstance(n, ast.Name) and n.id in names and isinstance(n.ctx, ast.Load) and \
+                                stmt_of(mod, n) is not par and self.flows_to_output(fi, n, chain, depth + 1):
+                            return True
+                    return False
+                if isinstance(par, ast.Return) and par.value is cur:
+                    if chain:
+                        cfi, call = chain[-1]
+                        return self.flows_to_output(cfi, call, chain[:-1], depth + 1)
+                    return True
+                return False
+            cur = par
+        return False
+
+
+def _r18a(rep, repo, meta):
+    tn = _Taint(repo, meta)
     for fi in meta.functions.values():
-        dvars = set(norm(s.targets[0]) for s in stmts_of(fi.node) if isinstance(s, ast.Assign) and isinstance(s.value, ast.Call)
-                    and call_tail(s.value) == 'get_defaults_dict')
-        for n in walk_body(fi.node):
-            if isinstance(n, ast.Name) and n.id in dvars and isinstance(n.ctx, ast.Load):
-                n_def += 1
-                par = meta.parents.get(n)
-                key_only = (isinstance(par, ast.Compare) and n in par.comparators and isinstance(par.ops[0], (ast.In, ast.NotIn))) or \
-                    (isinstance(par, ast.Attribute) and par.attr == 'keys') or (isinstance(par, ast.Call) and call_name(par) in ('len', 'sorted', 'list', 'set'))
-                rep.check('R18.a', fkey(fi, 'defaults use ' + norm(par)[:50]), key_only, 'parameter defaults are consulted by name only' if key_only else
-                          '%s reads the *value* of an endpoint parameter default (%s) into the meta context: an arbitrary host object reaches the '
-                          'JSON view (encoder failure => 500 for the whole view, or disclosure)' % (fi.qualname, short(par)), meta, n)
+        tn.scan(fi, {})
+    n_res = sum(1 for fi, n, _, _ in tn.reads if isinstance(n, ast.Attribute) and n.attr == 'resources')
+    if n_res < 3:
+        raise AnalysisError('meta.py: only %d reads of .resources found (floor 3)' % n_res)
+    # every occurrence of a sensitive mapping (resources, endpoint parameter defaults): names only
+    for i, (fi, n, kind, detail) in enumerate(tn.reads):
+        rep.check('R18.a', fkey(fi, n) + '#' + str(i), kind is not None,
+                  'read of %s is %s' % (short(n, 50), kind) if kind else detail, meta, n)
+    # every iteration over (name, value) pairs of a resources mapping
+    per_fn = {}
+    for site in tn.sites:
+        fi = site.fi
+        i = per_fn[fi.key] = per_fn.get(fi.key, -1) + 1
+        sfx = '' if i == 0 else '#%d' % i
+        kv, vv = site.kname, site.vname
+        rb = site.rebinds
+        rep.check('R18.a', fkey(fi, 'key variable intact') + sfx, not rb,
+                  "the 'secret' test looks at the resource name itself" if not rb else
+                  'the key variable %s is re-bound (truncated / transformed) in %s: the "secret" decision is made on '
+                  'something else than the resource name' % (kv, rb[0][0].qualname), meta, rb[0][1] if rb else site.holder.iter)
+        ok = not site.bad and bool(site.markers) and bool(site.uses)
+        rep.check('R18.a', fkey(fi, 'items() loop') + sfx, ok,
+                  "the value variable %s is evaluated only where ('secret' in %s) is false (%d uses); the other branch yields the constant %r"
+                  % (vv, kv, len(site.uses), site.markers[0][2] if site.markers else None) if ok else
+                  'a resource value is used without the "secret" test being false (%d unguarded uses%s) or no redaction marker is produced'
+                  % (len(site.bad), ', first in %s: %s' % (site.bad[0][0].qualname, short(fi.mod.parents.get(site.bad[0][1]), 60)) if site.bad else ''),
+                  meta, site.bad[0][1] if site.bad else site.holder.iter)
+        ok2 = site.shown and not site.bad
+        rep.check('R18.a', fkey(fi, 'output value') + sfx, ok2,
+                  'the listed value is the branch result (marker %r for secret names), never the raw value'
+                  % (site.markers[0][2] if site.markers else None) if ok2 else
+                  ('the raw resource value is put into the output' if site.bad else
+                   'the redaction marker does not reach the listing'), meta, site.bad[0][1] if site.bad else site.holder.iter)
+    if not tn.sites and all(k is not None for _, _, k, _ in tn.reads):
+        raise AnalysisError('meta.py: no iteration over the (name, value) pairs of a .resources mapping found (the resource listing '
+                            'could not be located)')
     # contexts never hold framework objects themselves
-    ctx_funcs = [fi for q, fi in meta.functions.items() if fi.name in ('get_context',) or q in
-                 ('get_route_infos', 'get_resource_info', 'get_mw_infos', 'get_endpoint_info', 'get_render_info', 'get_route_arg_info')]
+    ctx = _context_functions(repo, meta)
     n_vals = 0
-    for fi in ctx_funcs:
+    for fi in ctx:
         for n in walk_body(fi.node):
             vals = []
             if isinstance(n, ast.Dict):
                 vals = list(n.values)
             elif isinstance(n, ast.Assign) and isinstance(n.targets[0], ast.Subscript):
                 vals = [n.value]
+            elif isinstance(n, ast.Call) and call_name(n) == 'dict':
+                vals = [k.value for k in n.keywords]
+            elif isinstance(n, ast.Call) and isinstance(n.func, ast.Attribute) and n.func.attr in ('append', 'insert', 'add'):
+                vals = list(n.args[-1:])
+            elif isinstance(n, (ast.ListComp, ast.SetComp, ast.GeneratorExp)):
+                vals = [n.elt]
+            elif isinstance(n, ast.DictComp):
+                vals = [n.value]
             for v in vals:
                 n_vals += 1
                 if isinstance(v, ast.Name) and v.id in OBJECT_NAMES:
                     rep.fail('R18.a', fkey(fi, 'context value ' + v.id), 'the %s object itself is stored in a page context: the JSON view would '
                              'traverse it (resources, secret keys)' % v.id, meta, v)
-    rep.ok('R18.a', '%s::context values' % META, '%d values stored in peripheral contexts; none is an application/route/middleware/request object' % n_vals, meta)
+    rep.ok('R18.a', '%s::context values' % META, '%d values stored in peripheral contexts (%d functions); none is an application/route/'
+           'middleware/request object' % (n_vals, len(ctx)), meta)
     rep.floor('R18.a', 5)
 
-    # ---- R18.b -----------------------------------------------------------
-    gm = meta.func('get_mw_infos')
-    loop = [s for s in stmts_of(gm.node) if isinstance(s, ast.For)]
-    if len(loop) != 1:
-        raise AnalysisError('get_mw_infos: loop not found')
-    mv = norm(loop[0].target)
-    attrs = set()
-    for n in ast.walk(loop[0]):
+
+def _context_functions(repo, meta):
+    """The functions that build peripheral contexts: every ``get_context`` (methods, and functions installed under
+    that name), the listing functions, and the helpers of meta.py they call."""
+    out, todo = [], []
+    for q, fi in meta.functions.items():
+        if fi.name == 'get_context' or q in ('get_route_infos', 'get_resource_info', 'get_mw_infos', 'get_endpoint_info',
+                                             'get_render_info', 'get_route_arg_info'):
+            todo.append(fi)
+    for c in meta.classes.values():
+        v = c.class_attrs.get('get_context')
+        if isinstance(v, ast.Call) and call_name(v) in ('staticmethod', 'classmethod') and v.args and isinstance(v.args[0], ast.Name):
+            f = meta.functions.get(v.args[0].id)
+            if f is not None:
+                todo.append(f)
+    seen = set()
+    while todo:
+        fi = todo.pop()
+        if fi.key in seen:
+            continue
+        seen.add(fi.key)
+        out.append(fi)
+        for n in walk_body(fi.node):
+            if isinstance(n, ast.Call):
+                callee, _ = resolve_callee(repo, fi, n)
+                if callee is not None and callee.mod is meta and callee.key not in seen:
+                    todo.append(callee)
+    return sorted(out, key=lambda f: f.key)
+
+
+# ------------------------------------------------------------------------------------------ R18.b
+def _mw_reads(repo, fi, scope_nodes, mv, attrs, depth=0):
+    """What is read from the middleware held by local ``mv`` in the given nodes (followed into helpers of the tree
+    the middleware is handed to)."""
+    for n in scope_nodes:
         if isinstance(n, ast.Attribute) and isinstance(n.value, ast.Name) and n.value.id == mv:
             attrs.add(n.attr)
-        if isinstance(n, ast.Call) and call_name(n) in ('vars', 'getattr') and n.args and norm(n.args[0]) == mv:
+        if isinstance(n, ast.Call) and call_name(n) in ('vars', 'getattr', 'dir') and n.args and norm(n.args[0]) == mv:
             attrs.add('<%s>' % call_name(n))
-        if isinstance(n, ast.Attribute) and n.attr == '__dict__' and norm(n.value) == mv:
-            attrs.add('__dict__')
-    ok = attrs <= {'__class__', 'provides', 'requires', 'endpoint_provides', 'render_provides', 'name'}
+        if isinstance(n, ast.Call) and depth < 3:
+            callee, skip = resolve_callee(repo, fi, n)
+            if callee is None:
+                continue
+            b = bind_args(callee, skip, n)
+            if b is None:
+                if any(isinstance(x, ast.Name) and x.id == mv for x in ast.walk(n)):
+                    attrs.add('<%s(...)>' % short(n.func, 30))
+                continue
+            for p, x in b.items():
+                if isinstance(x, ast.Name) and x.id == mv:
+                    _mw_reads(repo, callee, list(walk_body(callee.node)), p, attrs, depth + 1)
+
+
+def _r18b(rep, repo, meta):
+    gm = meta.func('get_mw_infos')
+    binders = [n for n in walk_body(gm.node) if isinstance(n, (ast.For, ast.comprehension)) and isinstance(n.target, ast.Name) and
+               any(isinstance(x, ast.Attribute) and x.attr == 'middlewares' for x in ast.walk(n.iter))]
+    if not binders:
+        # the middleware list may be named first
+        for n in walk_body(gm.node):
+            if isinstance(n, (ast.For, ast.comprehension)) and isinstance(n.target, ast.Name) and isinstance(n.iter, ast.Name):
+                srcs = [s.value for s in stmts_of(gm.node) if isinstance(s, ast.Assign) and len(s.targets) == 1 and
+                        norm(s.targets[0]) == n.iter.id]
+                if len(srcs) == 1 and any(isinstance(x, ast.Attribute) and x.attr == 'middlewares' for x in ast.walk(srcs[0])):
+                    binders.append(n)
+    if len(binders) != 1:
+        raise AnalysisError('get_mw_infos: iteration over the middlewares not found')
+    b = binders[0]
+    mv = b.target.id
+    if isinstance(b, ast.For):
+        scope = [x for s in b.body + b.orelse for x in ast.walk(s)]
+    else:
+        comp = meta.parents.get(b)
+        scope = [x for x in ast.walk(comp) if not any(x is y for y in ast.walk(b.iter))]
+    attrs = set()
+    _mw_reads(repo, gm, scope, mv, attrs)
+    ok = attrs <= MW_ATTRS
     rep.check('R18.b', fkey(gm, 'attributes read'), ok, 'only %s (and repr(mw)) are read from a middleware' % sorted(attrs) if ok else
-              'get_mw_infos reads %s from middlewares' % sorted(attrs), meta, gm.node)
+              'get_mw_infos reads %s from middlewares' % sorted(attrs - MW_ATTRS), meta, gm.node)
     mwbase = repo.mod('clastic.middleware.core').cls('Middleware')
     n_repr = 0
     for m in repo.all_internal_modules():
@@ -165,30 +818,65 @@ def run(rep):
         raise AnalysisError('only %d middleware __repr__ methods found (floor 3)' % n_repr)
     rep.floor('R18.b', 4)
 
-    # ---- R18.c -----------------------------------------------------------
+
+# ------------------------------------------------------------------------------------------ R18.c
+def _inject_calls(repo, fi, wanted, chain=(), seen=None):
+    """[(function, inject call, chain of (caller, call))] for the ``inject(<peripheral>.<method>, ..)`` calls (method in
+    ``wanted``) in ``fi`` and in the functions of the tree it calls."""
+    seen = set() if seen is None else seen
+    if fi.key in seen or len(chain) > 3:
+        return []
+    seen.add(fi.key)
+    out = []
+    for c in walk_body(fi.node):
+        if not isinstance(c, ast.Call):
+            continue
+        if call_name(c) == 'inject' and c.args and isinstance(c.args[0], ast.Attribute) and c.args[0].attr in wanted:
+            out.append((fi, c, chain))
+            continue
+        callee, _ = resolve_callee(repo, fi, c)
+        if callee is not None and callee.mod is fi.mod and callee.name not in ('get_main', 'render_main_page_html'):
+            out.extend(_inject_calls(repo, callee, wanted, chain + ((fi, c),), seen))
+    return out
+
+
+def _r18c(rep, repo, meta):
     gmn = meta.func('MetaApplication.get_main')
     rmp = meta.func('MetaApplication.render_main_page_html')
-    n_inj = 0
-    for fi, floor in ((gmn, 1), (rmp, 2)):
-        inj = [c for c in walk_body(fi.node) if isinstance(c, ast.Call) and call_name(c) == 'inject']
+    for anchor, wanted, floor in ((gmn, ('get_context',), 1), (rmp, ('render_main_page_html', 'get_general_items'), 2)):
+        inj = _inject_calls(repo, anchor, wanted)
         if len(inj) < floor:
-            raise AnalysisError('%s: %d inject calls (floor %d)' % (fi.qualname, len(inj), floor))
-        for c in inj:
-            n_inj += 1
+            raise AnalysisError('%s: %d inject calls of %s found (floor %d)' % (anchor.qualname, len(inj), '/'.join(wanted), floor))
+        for fi, c, chain in inj:
             h = protected_by(fi, c, 'Exception')
+            in_helper = fi is not anchor
             ok = h is not None and not any(isinstance(r, ast.Raise) for r in ast.walk(h)) and \
-                any(isinstance(s, ast.Assign) for s in h.body)
-            rep.check('R18.c', fkey(fi, c), ok, 'a failing peripheral is replaced by a placeholder (handler: except %s)' % (norm(h.type) if h else None) if ok else
+                (any(isinstance(s, ast.Assign) for s in h.body) or
+                 (in_helper and any(isinstance(s, ast.Return) and s.value is not None for s in h.body)))
+            if ok and not in_helper and any(isinstance(s, (ast.Return, ast.Break)) for s in ast.walk(h)):
+                ok = False      # leaving the loop from the handler drops the remaining sections
+            rep.check('R18.c', fkey(anchor, c), ok, 'a failing peripheral is replaced by a placeholder (handler: except %s)' % (norm(h.type) if h else None) if ok else
                       'a failing peripheral call %s fails the whole meta page' % short(c), meta, c)
-            # the protected call is inside the per-peripheral loop (one bad section does not hide the others)
-            loop_ = [s for s in stmts_of(fi.node) if isinstance(s, ast.For) and any(c is x for x in ast.walk(s))]
-            ok = len(loop_) >= 1 and 'peripherals' in norm(loop_[0].iter)
-            rep.check('R18.c', fkey(fi, c) + '::per section', ok, 'handled per peripheral' if ok else 'not handled per peripheral', meta, c)
-    ok = any(isinstance(c, ast.Call) and norm(c.func).endswith('setdefault') for c in walk_body(gmn.node))
-    # (the update of full_ctx happens after the handler, so a placeholder is merged like a real context)
+            # the protected call runs once per peripheral (one bad section does not hide the others): somewhere on the way
+            # from the anchor to the call there is a loop over the peripherals, and the try statement is inside it
+            links = list(chain) + [(fi, c)]
+            ok = False
+            for j, (lf, ln) in enumerate(links):
+                for l in _loops_around(lf, ln):
+                    if not _iter_mentions(lf, l.iter, 'peripherals'):
+                        continue
+                    if lf is fi and h is not None:
+                        tr = meta.parents.get(h)
+                        holder = l if isinstance(l, ast.For) else meta.parents.get(l)
+                        if not any(tr is x for x in ast.walk(holder)):
+                            continue
+                    ok = True
+            rep.check('R18.c', fkey(anchor, c) + '::per section', ok, 'handled per peripheral' if ok else 'not handled per peripheral', meta, c)
     rep.floor('R18.c', 6)
 
-    # ---- R18.d -----------------------------------------------------------
+
+# ------------------------------------------------------------------------------------------ R18.d
+def _r18d(rep, repo, meta):
     pkg_dir = os.path.join(repo.root, 'clastic')
     files = sorted(f for f in os.listdir(pkg_dir) if f.startswith('meta_') and f.endswith('.html'))
     if len(files) < 8:
@@ -200,20 +888,25 @@ def run(rep):
         if c is not amp and amp in repo.mro(c):
             tp = c.class_attrs.get('template_path')
             sect[c.name] = repo.try_fold(tp, meta) if tp is not None else None
-    rend = amp.methods['render_main_page_html']
+    rend = amp.methods.get('render_main_page_html')
+    init = amp.methods.get('__init__')
+    if rend is None or init is None:
+        raise AnalysisError('AshesMetaPeripheral: __init__ / render_main_page_html not found')
     ok = all(isinstance(r.value, ast.Call) and norm(r.value.func) == 'self.loaded_template.render' for r in returns_of(rend)) and returns_of(rend)
     rep.check('R18.d', fkey(rend), bool(ok), 'section HTML is an ashes render of the peripheral\'s own template' if ok else
               'AshesMetaPeripheral.render_main_page_html does not return self.loaded_template.render(...)', meta, rend.node)
-    init = amp.methods['__init__']
     ok = any(isinstance(s, ast.Assign) and norm(s.targets[0]) == 'self.loaded_template' and 'self.template_path' in norm(s.value) for s in stmts_of(init.node))
     rep.check('R18.d', fkey(init), ok, 'loaded_template is loaded from self.template_path' if ok else 'loaded_template does not come from template_path', meta, init.node)
     for cname, tp in sorted(sect.items()):
         rep.check('R18.d', '%s::%s.template_path' % (META, cname), tp in files, '%s renders %s' % (cname, tp) if tp in files else
                   '%s renders %r, which is not a shipped meta template' % (cname, tp), meta)
-    base_render = meta.cls('MetaPeripheral').methods['render_main_page_html']
+    base_render = meta.cls('MetaPeripheral').methods.get('render_main_page_html')
+    if base_render is None:
+        raise AnalysisError('MetaPeripheral.render_main_page_html not found')
     ok = all(isinstance(r.value, ast.Constant) and r.value.value is None for r in returns_of(base_render))
     rep.check('R18.d', fkey(base_render), ok, 'non-template peripherals contribute no raw content' if ok else
               'MetaPeripheral.render_main_page_html returns raw content', meta, base_render.node)
+
     class _F(object):
         def __init__(self, name):
             self.name = 'clastic/' + name
@@ -227,6 +920,37 @@ def run(rep):
     rep.check('R18.d', 'clastic::autoescape_filter', not aw, 'no code in clastic assigns autoescape_filter' if not aw else
               'autoescape_filter is assigned somewhere in clastic', meta)
     mi = meta.func('MetaApplication.__init__')
-    ok = any(isinstance(s, ast.Assign) and norm(s.targets[0]) == 'self._main_page_render' and "'meta_base.html'" in norm(s.value) for s in stmts_of(mi.node))
+
+    def names_base(e):
+        return any(repo.try_fold(a, meta) == 'meta_base.html' for c in ast.walk(e) if isinstance(c, ast.Call) for a in c.args)
+    ok = any(isinstance(s, ast.Assign) and norm(s.targets[0]) == 'self._main_page_render' and names_base(s.value) for s in stmts_of(mi.node))
     rep.check('R18.d', fkey(mi, 'main template'), ok, 'the main page is rendered from meta_base.html' if ok else 'the main page template changed', meta, mi.node)
     rep.floor('R18.d', 40)
+
+
+def run(rep):
+    repo = rep.repo
+    meta = repo.mod(META)
+    rep.decide('R18.a resource values only on the non-secret branch / no object leaks into contexts; R18.b middleware info '
+               'and reprs; R18.c per-section fail-soft handlers; R18.d meta templates escape')
+    rep.decline('"200 for any host application" beyond the fail-soft handlers (JSON encodability of arbitrary contexts); '
+                'secrets inside the repr of resources whose name does not contain "secret"')
+    rep.rule('R18.a', 'taint: .resources values reach output only under ("secret" in key) == False')
+    rep.rule('R18.b', 'attribute reads in get_mw_infos and in middleware __repr__ methods')
+    rep.rule('R18.c', 'must-catch around each peripheral call')
+    rep.rule('R18.d', 'Dust reference escaping of the meta templates')
+
+    def group(fn):
+        def rule_group():
+            try:
+                return fn(rep, repo, meta)
+            except AnalysisError:
+                raise
+            except RecursionError as e:
+                raise AnalysisError('%s: construct too deep to analyse (%s)' % (fn.__name__.strip('_'), e))
+            except (AttributeError, KeyError, IndexError, TypeError, ValueError) as e:
+                raise AnalysisError('%s: unexpected shape (%s: %s)' % (fn.__name__.strip('_'), type(e).__name__, e))
+        rule_group.__name__ = fn.__name__.strip('_')
+        return rule_group
+    for fn in (_r18a, _r18b, _r18c, _r18d):
+        rep.guard(group(fn))
